@@ -801,8 +801,8 @@ class Engine:
                     try: e.ins = fr_.fn.blocks[fr_.bb][fr_.ip-1]
                     except Exception: e.ins = ''
                 r = PathResult(s, 'violation', e)
-            except Budget:
-                r = PathResult(s, 'budget', None)
+            except Budget as e:
+                r = PathResult(s, 'budget', (e.args[0] if e.args else None))
             except Abort as e:
                 r = PathResult(s, 'abort', e)
             if r.kind != 'ret': del s.frames[base:]
@@ -865,7 +865,7 @@ class Engine:
         for (t, n), a in zip(f.params, argv): nf.env[n] = a
         nf.bb = f.entry; nf.ret_to = dst; nf.code = self.code(f, f.entry)
         st.frames.append(nf)
-        if len(st.frames) > 400: raise Budget()
+        if len(st.frames) > 400: raise Budget('depth')
         self.called.add(name)
 
     def exec_path(self, st, base):
@@ -874,8 +874,8 @@ class Engine:
             fr = st.frames[-1]
             d = fr.code[fr.ip]; fr.ip += 1
             self.steps += 1; st.steps += 1
-            if st.steps > self.max_steps: raise Budget()
-            if self.deadline is not None and (self.steps & 1023) == 0 and time.time() > self.deadline: raise Budget()
+            if st.steps > self.max_steps: raise Budget('steps')
+            if self.deadline is not None and (self.steps & 1023) == 0 and time.time() > self.deadline: raise Budget('deadline')
             op = d[0]
             if op == 'bin':
                 _, dst, o, w, a, b, flags = d
